@@ -161,13 +161,13 @@ type gInst struct{ id, meter, kind int }
 type gCb struct{ id, meter int }
 
 type gen struct {
-	r      *vRand
-	ops    []string
-	nM     int
-	meters []int // handles that exist
-	insts  []gInst
-	cbs    []gCb
-	trs    []int
+	r                  *vRand
+	ops                []string
+	nM                 int
+	meters             []int // handles that exist
+	insts              []gInst
+	cbs                []gCb
+	trs                []int
 	nI, nC, nT, nS, nP int
 	// entities created by operations that may still be pending (usable after the join only)
 	lateMeters []int
@@ -292,6 +292,11 @@ func (g *gen) span() {
 	g.nS++
 }
 
+// selfSet emits a save/restore-style self-set of one of the three global values.
+func (g *gen) selfSet() {
+	g.emit(vPick(g.r, []string{"XT", "XM", "XT", "XM", "XP"}))
+}
+
 func (g *gen) inject() {
 	g.emit("P %d", g.nP)
 	g.nP++
@@ -321,7 +326,11 @@ func (g *gen) anyOp() {
 			g.newTracer()
 		}
 	case x < 19:
-		g.inject()
+		if g.r.Intn(3) == 0 {
+			g.selfSet()
+		} else {
+			g.inject()
+		}
 	default:
 		g.newInst(1)
 	}
@@ -345,6 +354,12 @@ func (g *gen) prePhase() {
 	}
 	for k := g.r.Intn(6); k > 0; k-- {
 		g.anyOp()
+	}
+	// a save/restore helper ran before any SDK existed (self-set, then the real installation follows)
+	if g.r.Intn(3) == 0 {
+		for k := 1 + g.r.Intn(2); k > 0; k-- {
+			g.selfSet()
+		}
 	}
 }
 
